@@ -4,6 +4,7 @@ package c06
 import (
 	"bytes"
 	"encoding/json"
+	"errors"
 	"fmt"
 	"net"
 	"net/http"
@@ -68,6 +69,9 @@ type Case struct {
 	// Verbs: that many verbs other than GET/POST/PUT/DELETE have routes in the committed tree (their roots come and go with
 	// their routes, unlike the four that always have one)
 	Verbs int `json:"verbs,omitempty"`
+	// Refused: the last writes before the parked writer opens its transaction were refused or given up (a duplicate
+	// registration, a delete of an unknown route, an Updates function returning an error, an aborted transaction)
+	Refused bool `json:"refused,omitempty"`
 }
 
 var stages = []string{"opened", "after-writes", "inside-updates", "after-iter", "after-snapshot"}
@@ -406,6 +410,18 @@ func checkCase(c *Case, count bool) error {
 		_, _ = f.Handle("GET", "/grown/{a}/{b}/{c}/{d}/{e}/{f}/{g}/{h}/{i}/{j}/{k}/{l}/x/y/z/w/v", h)
 		_, _ = f.Handle("GET", "/grown/{a}/{b}/{c}/{d}/{e}/{f}/{g}/{h}/{i}/{j}/{k}/{l}/x/y/z/w/u/t", h)
 	}
+	if c.Refused {
+		_, _ = f.Handle("GET", "/static", h)
+		_, _ = f.Delete("GET", "/never/registered")
+		_, _ = f.Update("POST", "/never/registered", h)
+		_ = f.Updates(func(txn *fox.Txn) error {
+			_, _ = txn.Handle("GET", "/given/up", h)
+			return errors.New("given up")
+		})
+		wt := f.Txn(true)
+		_, _ = wt.Handle("GET", "/given/up/too", h)
+		wt.Abort()
+	}
 	go func() {
 		defer close(writerDone)
 		body := func(txn *fox.Txn) {
@@ -654,7 +670,7 @@ func genCase(t *rapid.T) *Case {
 		Resolver: gen.Chance(t, 1, 2, "res"), Middleware: gen.IntR(t, 0, 3, "mw"), Hostnames: gen.Chance(t, 1, 3, "hosts"),
 		Deep:  gen.Pick(t, []int{0, 0, 8, 24, 25, 26, 40, 120}, "deep"),
 		Empty: gen.Pick(t, []string{"", "", "", "fresh", "truncated", "partly"}, "empty"),
-		Verbs: gen.Pick(t, []int{0, 0, 1, 2, 3}, "verbs"),
+		Verbs: gen.Pick(t, []int{0, 0, 1, 2, 3}, "verbs"), Refused: gen.Chance(t, 1, 3, "refused"),
 	}
 }
 
@@ -672,7 +688,7 @@ func TestMatrix(t *testing.T) {
 		for _, c := range []*Case{{Stage: st, Writes: 3}, {Stage: st, Writes: 5, TS: rt.TSRedirect, NoMethod: true, AutoOptions: true, Resolver: true, Middleware: 2, Hostnames: true},
 			{Stage: st, Writes: 3, Deep: 40}, {Stage: st, Writes: 2, TS: rt.TSIgnore, Hostnames: true, Deep: 64},
 			{Stage: st, Writes: 3, Empty: "fresh", NoMethod: true, AutoOptions: true}, {Stage: st, Writes: 2, Empty: "truncated", Deep: 8}, {Stage: st, Writes: 2, Empty: "partly", Hostnames: true},
-			{Stage: st, Writes: 2, Verbs: 2}, {Stage: st, Writes: 3, Verbs: 3, Hostnames: true, NoMethod: true, AutoOptions: true}} {
+			{Stage: st, Writes: 2, Verbs: 2}, {Stage: st, Writes: 2, Refused: true}, {Stage: st, Writes: 3, Refused: true, Hostnames: true, Empty: "truncated"}, {Stage: st, Writes: 3, Verbs: 3, Hostnames: true, NoMethod: true, AutoOptions: true}} {
 			stats.Sample(c)
 			if err := checkCase(c, true); err != nil {
 				fail(t, c, err)
